@@ -216,6 +216,20 @@ def check_case(case, ex):
                                    event=e['i'], partial=part, size=len(T)))
                 if st2['out'] == 'ok':
                     out.append(C.V('C10.write_error_swallowed', _fp(cfg, rows), event=e['i']))
+            # the same event as a SHORT write of a raw file (no error, the count is the return value): fires only if the writer
+            # opened the file unbuffered; then a normal return must still have produced the whole file
+            kw5 = dict(kw)
+            kw5['faults'] = [{'kind': 'short_write', 'at_event': e['i'], 'partial': part}]
+            res5 = ex(C.scenario_with(case, [wop(**kw5)]))
+            stats['execs'] += 1
+            st5 = C.last_write(res5)
+            if st5 is not None and 'short_write' in (st5.get('faults_fired') or []):
+                bump(stats['faults'], 'short_write')
+                if st5['out'] == 'ok' and st5.get('file') != R:
+                    out.append(C.V('C10.size_vs_reported', _fp(cfg, rows, {'what': 'short_write'}), event=e['i'],
+                                   reported=st5.get('reported'), actual=len(st5.get('file') or b'')))
+            else:
+                bump(pr, 'short_write_not_applicable_buffered_file')
         # real crash + restart: the new process writes over the torn file
         if P.get('crash') and cfg is P['configs'][0] and io:
             a, b = P['crash']
